@@ -21,6 +21,8 @@ pub mod service;
 mod token;
 mod utf8;
 mod utils;
+#[cfg(feature = "verif-hooks")]
+pub mod verif;
 pub mod writer;
 
 /// Macro available if embedded-cli is built with `features = ["macros"]`.
